@@ -309,3 +309,74 @@ package presign
 //@   ensures result1 == nil ==> result0 != nil
 //@   ensures typeis(result0, *round.Abort) ==> result0.(*round.Abort).Err != nil
 //@   ensures typeis(result0, *round.Output) ==> result0.(*round.Output).Result != nil
+
+// ---- content templates (C05): the handler asks every round for the value it decodes into; with the round's state
+// invariant this never panics, and a broadcast round always returns a template (refinement of round.BroadcastRound)
+//@ func (*presign3).MessageContent
+//@   nopanic[C05]
+//@   requires ps3ok(r)
+//@   modifies nothing
+//@   allocates
+//@ func (*abort1).BroadcastContent
+//@   nopanic[C05]
+//@   requires r != nil && ps6ok(r.presign6)
+//@   modifies nothing
+//@   allocates
+//@   ensures result != nil
+//@ func (*presign6).BroadcastContent
+//@   nopanic[C05]
+//@   requires ps6ok(r)
+//@   modifies nothing
+//@   allocates
+//@   ensures result != nil
+//@ func (*sign2).BroadcastContent
+//@   nopanic[C05]
+//@   requires r != nil && r.sign1 != nil && r.Helper != nil && r.Helper.info.Group != nil
+//@   modifies nothing
+//@   allocates
+//@   ensures result != nil
+//@ func (*presign5).MessageContent
+//@   nopanic[C05]
+//@   requires ps5ok(r)
+//@   modifies nothing
+//@   allocates
+//@ func (*presign5).BroadcastContent
+//@   nopanic[C05]
+//@   requires ps5ok(r)
+//@   modifies nothing
+//@   allocates
+//@   ensures result != nil
+//@ func (*presign7).BroadcastContent
+//@   nopanic[C05]
+//@   requires ps7ok(r)
+//@   modifies nothing
+//@   allocates
+//@   ensures result != nil
+//@ func (*abort2).BroadcastContent
+//@   nopanic[C05]
+//@   requires r != nil && ps7ok(r.presign7)
+//@   modifies nothing
+//@   allocates
+//@   ensures result != nil
+//@ func (*presign4).MessageContent
+//@   nopanic[C05]
+//@   requires ps4ok(r)
+//@   modifies nothing
+//@   allocates
+//@ func (*presign4).BroadcastContent
+//@   nopanic[C05]
+//@   requires ps4ok(r)
+//@   modifies nothing
+//@   allocates
+//@   ensures result != nil
+//@ func (*presign2).MessageContent
+//@   nopanic[C05]
+//@   requires ps2ok(r)
+//@   modifies nothing
+//@   allocates
+//@ func (*presign2).BroadcastContent
+//@   nopanic[C05]
+//@   requires ps2ok(r)
+//@   modifies nothing
+//@   allocates
+//@   ensures result != nil
